@@ -180,7 +180,7 @@ GoDecEv ==
   /\ LET p == ParseText(Ev.text) IN
      bad' = IF Ev.panic THEN "the codec panicked"
             ELSE IF ~p.ok THEN (IF Ev.err THEN "" ELSE "an ill-formed text was decoded without an error")
-            ELSE LET r == Dec(Ev.t, Ev.t, p.v, Ev.un) IN
+            ELSE LET r == Dec(Ev.t, Ev.t, p.v, Opt(Ev.un, Ev.strict)) IN
                  IF r.e = "dc" THEN (IF PrintT("GODEC-DC") THEN "" ELSE "")      \* counted by the driver (vacuity guard)
                  ELSE IF Ev.err # (r.e # "") THEN "an error is returned exactly when the decoding rules (GoDec.tla) say so: violated"
                  ELSE IF ~GoSame(r.v, Ev.got) THEN "the value stored differs from what the decoding rules (GoDec.tla) say"
